@@ -543,7 +543,10 @@ class Strftime(Op):
                 for n_ in (first - 3, first - 2, first - 1, first, first + 1, first + 2, first + 3):
                     for rep in "cow":
                         t = T.tp_from_inst(m, 86400 * n_ + rng.randint(0, 86399), rep, 0, 0)
-                        yield (m, t, rng.choice(["%Y-%m-%d %j", "%F", "%Y%j", "%Y"]))
+                        # %Y alone (no month/day directive forces a calendar view), with the day of
+                        # the year, with a full date, with time and zone only
+                        for fmt in ("%Y", "%Y%j", rng.choice(["%Y-%m-%d %j", "%F"]), "%Y %X %z"):
+                            yield (m, t, fmt)
 
     def line(self, a):
         return "strftime %s %s %s" % (a[0], T.tp_str(a[1]), hx(a[2]))
